@@ -25,4 +25,9 @@ for i in ids:
     print(i, "exit", p.returncode, (vio[:1] or und[:1] or [""])[0][:140], flush=True)
     shutil.rmtree(s, ignore_errors=True)
     shutil.rmtree(f"{V}/.work/seed_{i}", ignore_errors=True)
-    json.dump(res, open(resp, "w"), indent=1)
+    # parallel lanes share the file: merge this seed's entry into what is on disk now
+    cur = json.load(open(resp)) if os.path.exists(resp) else {}
+    cur[i] = res[i]
+    tmp = resp + f".{os.getpid()}.tmp"
+    json.dump(cur, open(tmp, "w"), indent=1)
+    os.replace(tmp, resp)
